@@ -20,9 +20,10 @@ EXPLANATION = (
     'position+1, every value returned by VLOOKUP is dominated by the not-found (#N/A) and column-range guards; (C15.4) '
     'COUNTIF/COUNTIFS/SUMIF/SUMIFS apply the check closure to every cell (comprehension over the whole range, no filter, criteria '
     'combined with all()).'
-    ' (C15.5) parse_criteria(criterion)(cell value) on 16 witness criteria x cell values through the real operator wrappers and comparison methods: six operators, plain values, texts case-insensitively also for <>.')
+    ' (C15.5) parse_criteria(criterion)(cell value) on 16 witness criteria x cell values through the real operator wrappers and comparison methods: six operators, plain values, texts case-insensitively also for <>.'
+    ' (C15.6) a witness workbook: MATCH (exact, approximate ascending / descending, repeated values, keys below / between / on / above the values, texts), COUNTIF / COUNTIFS with one to four criteria, CHOOSE at and beyond its bounds against hand-worked linear scans.')
 NOT_DECIDED = 'agreement with a linear scan on concrete data; approximate-match search on sorted data'
-TRUSTED = ['pandas set_index/loc semantics for VLOOKUP']
+TRUSTED = ['pandas set_index/loc semantics for VLOOKUP', 'workbook scenarios: pandas storage of range arrays as row-major rows, numpy on Python numbers (IEEE results, 64-bit integer wrap), dateutil.parser.parse rejecting texts that are no dates, openpyxl address arithmetic, inspect.signature built from the FunctionDef', 'typing.Union aliases compare as sets of their members']
 
 
 def _reg(ctx, name):
